@@ -5,3 +5,5 @@ package resmgr
 import "os"
 
 func removeAll(dir string) error { return os.RemoveAll(dir) }
+
+func traceBalloons(e *executor) {}
